@@ -60,6 +60,9 @@ type mHook struct {
 type Model struct {
 	cols  map[string]map[string]*mObj
 	hooks map[string]*mHook
+	// nowHi, when larger than the `now` passed to apply, makes time-dependent
+	// read replies (TTL) accept any instant in [now, nowHi]
+	nowHi time.Duration
 }
 
 func newModel() *Model {
@@ -708,8 +711,17 @@ func (m *Model) apply(args []string, now time.Duration) mResult {
 		if !o.hasDL {
 			return res(expInt(-1), false)
 		}
-		rem := float64(o.deadline-now) / float64(time.Second)
-		return res(expInt(int(math.Max(rem, 0))), false)
+		hi := int(math.Max(float64(o.deadline-now)/float64(time.Second), 0))
+		lo := hi
+		if m.nowHi > now {
+			lo = int(math.Max(float64(o.deadline-m.nowHi)/float64(time.Second), 0))
+		}
+		return res(func(v rv) error {
+			if v.T != ':' || int(v.N) < lo || int(v.N) > hi {
+				return fmt.Errorf("got %s want an integer in [%d,%d]", v.String(), lo, hi)
+			}
+			return nil
+		}, false)
 	case "get":
 		return m.applyGet(a)
 	case "fget":
